@@ -34,7 +34,7 @@ def main():
         steps = 260 if a.tier == "quick" else (8000 if variant == "rel" else 1500)
         knobs = {"sessions": 8, "versions": ["v3"], "ident_change": True, "beh_weights": [64, 4, 8, 24], "timeout": 0.6,
                  "ops": ["get", "get_many", "getnext", "getbulk", "fetch", "refresh", "refresh", "get"]}
-        jobs = [{"seed": a.seed * 99971 + i, "steps": steps, "aspects": ASPECTS, "knobs": knobs} for i in range(16)]
+        jobs = [{"seed": a.seed * 99971 + i, "steps": steps, "aspects": ASPECTS, "knobs": dict(knobs, same_octets=0.45 if i % 2 else 0.0)} for i in range(16)]
         outs = runner.run_workers("vlib.scenario", "worker", jobs, variant=variant, timeout=3000)
         stats[variant] = c03.collect(chk, outs, variant, PID)
         chk.seen(stats[variant]["requests"])
